@@ -15,9 +15,12 @@ func init() {
 			Explanation: "Decides on every CFG path: C09.record (Block.SetSignature in ProcessSigPool only after the block was fetched for the signature's index, the peer set of the block's round fetched, the signer found in that set and Block.Verify returned (true,nil); who may reach SetSignature), " +
 				"C09.attrib (wire signatures carry no validator; the validator is filled from the event creator's repertoire entry only; frame events do not feed the signature pool), " +
 				"C09.anchor (anchor raised only under len(Signatures) > TrustCount() of the block round's set — strict — and a monotone index; writers of AnchorBlock), " +
-				"C09.sign (signBlock only from commit, after the application answered without error, after the state hash / receipts were stored into the block, only if the node belongs to the block's set; Block.Sign signs Body.Hash()). " +
+				"C09.verify (Block.Verify yields true only through the ECDSA check of this signature over the body hash — no shortcut), C09.sign (signBlock only from commit, after the application answered without error, after the state hash / receipts were stored into the block, only if the node belongs to the block's set; Block.Sign signs Body.Hash()). " +
 				"NOT decided: that the anchor offered after a fast-forward carries only verified signatures (Reset stores the received block as is; the anchor is nil after a reset until a locally verified one replaces it)."},
-		Rules: []ruleFunc{c09record, c09attrib, c09anchor, c09sign},
+		Rules: []ruleFunc{c09record, c09attrib, c09anchor, c09sign, func(p *Prog, r *Report) {
+			r.Rule("C09.verify", 1, "Block.Verify returns true only through keys.Verify over Body.Hash() with the signer's key and this signature")
+			verifyProvenance(p, r, "C09.verify", []string{"Block"})
+		}},
 	})
 }
 
